@@ -689,3 +689,242 @@ Print Assumptions C05_wiring_Nub__dimensions.
 
 End Wiring_C05.
 (* ---- WIRING-APPENDIX:END ---- *)
+
+(*BEGIN GenAgreeDimType_C05*)
+(* ------------------------------------------------------------------------------------ *)
+(* SOURCE TEXT of the labels, aliases and names of dimension.py (harness/translate/x_dimtype.py, see the appendix of
+   Props/C01.v): Element.label / alias, Dimension.element_labels / element_aliases / subtotal_labels /
+   subtotal_aliases / name / description / alias / selected_categories ARE [element_label] .. [dimension_alias] of
+   Model/DimValues.v whenever the label formatter is not involved (numeric / datetime / text element values and
+   ranges are the outcome Unmodelled); Elements._hidden_transforms IS [hidden_transforms]; the DATETIME_FORMATS
+   table IS [datetime_formats].  The C05_dimvalues_* theorems say what the model definitions mean. *)
+From CC Require Proofs.GenAgreeDimTypeLib Proofs.GenAgreeDimTypeLabels Proofs.GenAgreeDimTypeOrder Proofs.GenAgreeDimTypeHidden Proofs.GenAgreeDimTypeComposeLabels Proofs.DimValuesProofs.
+Section GenAgreeDimType_C05.   (* scopes and imports below end with the section *)
+Import Coq.Lists.List Coq.ZArith.ZArith Coq.Strings.String Coq.Bool.Bool CC.Base.XQ CC.Base.PyList CC.Base.PyDict
+       CC.Model.DimType CC.Model.PyDimension CC.Model.PyDimType CC.Model.DimValues CC.Model.Smoothing
+       CC.Gen.DimensionSrc CC.Gen.DimTypeSrc CC.Proofs.GenAgreeDimensionLib
+       CC.Proofs.GenAgreeDimTypeElems CC.Proofs.GenAgreeDimTypeLib CC.Proofs.GenAgreeDimTypeLabels CC.Proofs.GenAgreeDimTypeOrder CC.Proofs.GenAgreeDimTypeHidden CC.Proofs.GenAgreeDimTypeComposeLabels CC.Proofs.DimValuesProofs.
+Import Coq.Lists.List.ListNotations.
+Local Close Scope Q_scope.
+Local Open Scope Z_scope.
+Local Open Scope string_scope.
+
+Theorem C05_gen_dimtype_Dimension_alias :
+  match src_Dimension_alias with
+  | Some f => forall t dd tr refs, jget dd "references" = Some (JDict refs) ->
+      f (mkPyDimension t (JDict dd) tr) = Ok (dimension_alias refs)
+  | None => True end.
+Proof. exact gen_dimtype_Dimension_alias. Qed.
+Print Assumptions C05_gen_dimtype_Dimension_alias.
+
+Theorem C05_gen_dimtype_Dimension_name :
+  match src_Dimension_name with
+  | Some f => forall t dd tr refs, jget dd "references" = Some (JDict refs) ->
+      f (mkPyDimension t (JDict dd) (JDict tr)) = Ok (dimension_name refs tr)
+  | None => True end.
+Proof. exact gen_dimtype_Dimension_name. Qed.
+Print Assumptions C05_gen_dimtype_Dimension_name.
+
+Theorem C05_gen_dimtype_Dimension_description :
+  match src_Dimension_description with
+  | Some f => forall t dd tr refs, jget dd "references" = Some (JDict refs) ->
+      f (mkPyDimension t (JDict dd) (JDict tr)) = Ok (dimension_description refs tr)
+  | None => True end.
+Proof. exact gen_dimtype_Dimension_description. Qed.
+Print Assumptions C05_gen_dimtype_Dimension_description.
+
+Theorem C05_gen_dimtype_Dimension_selected_categories :
+  match src_Dimension_selected_categories with
+  | Some f => forall t dd tr refs, jget dd "references" = Some (JDict refs) ->
+      f (mkPyDimension t (JDict dd) tr)
+      = match jget refs "selected_categories" with
+        | Some (JList (c :: cs)) => Ok (c :: cs)
+        | Some (JDict (kv :: d)) => Ok (jd_keys (kv :: d))
+        | Some v => if jv_truthy v then bind (pj_iter v) (fun l => Ok l) else Ok []
+        | None => Ok []
+        end
+  | None => True end.
+Proof. exact gen_dimtype_Dimension_selected_categories. Qed.
+Print Assumptions C05_gen_dimtype_Dimension_selected_categories.
+
+Theorem C05_gen_dimtype__ElementTransforms_name :
+  match src__ElementTransforms_name with
+  | Some f => forall xf v, xform_name xf = Some v -> f (mkPyXforms (JDict xf)) = Ok v
+  | None => True end.
+Proof. exact gen_dimtype__ElementTransforms_name. Qed.
+Print Assumptions C05_gen_dimtype__ElementTransforms_name.
+
+Theorem C05_gen_dimtype_Element__str_representation_for_name :
+  match src_Element__str_representation_for with
+  | Some f => forall e idx xf t v, element_label xf e = Some v ->
+      f (mkPyElement (JDict e) idx (mkPyXforms (JDict xf)) t) "name" = Ok v
+  | None => True end.
+Proof. exact gen_dimtype_Element__str_representation_for_name. Qed.
+Print Assumptions C05_gen_dimtype_Element__str_representation_for_name.
+
+Theorem C05_gen_dimtype_Element__str_representation_for_alias :
+  match src_Element__str_representation_for with
+  | Some f => forall e idx xf t v, element_alias e = Some v ->
+      f (mkPyElement (JDict e) idx xf t) "alias" = Ok v
+  | None => True end.
+Proof. exact gen_dimtype_Element__str_representation_for_alias. Qed.
+Print Assumptions C05_gen_dimtype_Element__str_representation_for_alias.
+
+Theorem C05_gen_dimtype_Element_label :
+  match src_Element_label with
+  | Some f => forall e idx xf t v, element_label xf e = Some v ->
+      f (mkPyElement (JDict e) idx (mkPyXforms (JDict xf)) t) = Ok v
+  | None => True end.
+Proof. exact gen_dimtype_Element_label. Qed.
+Print Assumptions C05_gen_dimtype_Element_label.
+
+Theorem C05_gen_dimtype_Element_alias :
+  match src_Element_alias with
+  | Some f => forall e idx xf t v, element_alias e = Some v ->
+      f (mkPyElement (JDict e) idx xf t) = Ok v
+  | None => True end.
+Proof. exact gen_dimtype_Element_alias. Qed.
+Print Assumptions C05_gen_dimtype_Element_alias.
+
+Theorem C05_gen_dimtype_Dimension_element_labels :
+  match src_Dimension_element_labels, src_Dimension_valid_elements with
+  | Some f, Some g => forall self els labels, g self = Ok els ->
+      Forall2 (fun el l => el_label el = Some l) els labels -> f self = Ok labels
+  | _, _ => True end.
+Proof. exact gen_dimtype_Dimension_element_labels. Qed.
+Print Assumptions C05_gen_dimtype_Dimension_element_labels.
+
+Theorem C05_gen_dimtype_Dimension_element_aliases :
+  match src_Dimension_element_aliases, src_Dimension_valid_elements with
+  | Some f, Some g => forall self els aliases, g self = Ok els ->
+      Forall2 (fun el l => el_alias el = Some l) els aliases -> f self = Ok aliases
+  | _, _ => True end.
+Proof. exact gen_dimtype_Dimension_element_aliases. Qed.
+Print Assumptions C05_gen_dimtype_Dimension_element_aliases.
+
+Theorem C05_gen_dimtype__Subtotal_label :
+  match src__Subtotal_label with
+  | Some f => forall ins els, f (mkPySubtotal (JDict ins) els) = Ok (subtotal_label ins)
+  | None => True end.
+Proof. exact gen_dimtype__Subtotal_label. Qed.
+Print Assumptions C05_gen_dimtype__Subtotal_label.
+
+Theorem C05_gen_dimtype__Subtotal_alias :
+  match src__Subtotal_alias with
+  | Some f => forall ins els, f (mkPySubtotal (JDict ins) els) = Ok (subtotal_alias ins)
+  | None => True end.
+Proof. exact gen_dimtype__Subtotal_alias. Qed.
+Print Assumptions C05_gen_dimtype__Subtotal_alias.
+
+Theorem C05_gen_dimtype_Dimension_subtotal_labels :
+  match src_Dimension_subtotal_labels, src_Dimension_subtotals, src__Subtotals__subtotals with
+  | Some f, Some g, Some h => forall self ss subs, g self = Ok ss -> h ss = Ok subs -> Forall st_is_dict subs ->
+      f self = Ok (map st_label subs)
+  | _, _, _ => True end.
+Proof. exact gen_dimtype_Dimension_subtotal_labels. Qed.
+Print Assumptions C05_gen_dimtype_Dimension_subtotal_labels.
+
+Theorem C05_gen_dimtype_Dimension_subtotal_aliases :
+  match src_Dimension_subtotal_aliases, src_Dimension_subtotals, src__Subtotals__subtotals with
+  | Some f, Some g, Some h => forall self ss subs, g self = Ok ss -> h ss = Ok subs -> Forall st_is_dict subs ->
+      f self = Ok (map st_alias subs)
+  | _, _, _ => True end.
+Proof. exact gen_dimtype_Dimension_subtotal_aliases. Qed.
+Print Assumptions C05_gen_dimtype_Dimension_subtotal_aliases.
+
+Theorem C05_gen_dimtype_DATETIME_FORMATS :
+  match src_STRDICT_DATETIME_FORMATS with
+  | Some tbl => tbl = datetime_formats
+  | None => True end.
+Proof. exact gen_dimtype_DATETIME_FORMATS. Qed.
+Print Assumptions C05_gen_dimtype_DATETIME_FORMATS.
+
+Theorem C05_gen_dimtype_Elements__hidden_transforms :
+  match src_Elements__hidden_transforms with
+  | Some f => forall defs hdefs ins hs,
+      Forall2 hdef_abs defs hdefs -> Forall2 hins_abs ins hs ->
+      f (JList defs) (JList ins) = Ok (hidden_transforms hdefs (opt_names hs))
+  | None => True end.
+Proof. exact gen_dimtype_Elements__hidden_transforms. Qed.
+Print Assumptions C05_gen_dimtype_Elements__hidden_transforms.
+
+Theorem C05_gen_dimtype_Dimension_element_labels_all :
+  match src_Dimension_element_labels, src_Dimension_valid_elements, src_Elements__hidden_transforms with
+  | Some f, Some _, Some h => forall t dd tr ty defs rids ids o ax hid labels, dim_reads' t dd tr ty defs rids ids o ax ->
+      (dtype_eqb t TMrSubvar = true ->
+       h (JList (reorder rids defs o)) (jd_get_default tr (JStr "insertions") (JList [])) = Ok hid) ->
+      Forall2 (pair_label (if dtype_eqb t TMrSubvar then jd_update hid ax else ax))
+              (valid_pairs (reorder rids defs o) (reorder rids ids o)) labels ->
+      f (mkPyDimension t (JDict dd) (JDict tr)) = Ok labels
+  | _, _, _ => True end.
+Proof. exact gen_dimtype_Dimension_element_labels_all. Qed.
+Print Assumptions C05_gen_dimtype_Dimension_element_labels_all.
+
+Theorem C05_gen_dimtype_Dimension_element_aliases_all :
+  match src_Dimension_element_aliases, src_Dimension_valid_elements, src_Elements__hidden_transforms with
+  | Some f, Some _, Some h => forall t dd tr ty defs rids ids o ax hid aliases, dim_reads' t dd tr ty defs rids ids o ax ->
+      (dtype_eqb t TMrSubvar = true ->
+       h (JList (reorder rids defs o)) (jd_get_default tr (JStr "insertions") (JList [])) = Ok hid) ->
+      Forall2 pair_alias (valid_pairs (reorder rids defs o) (reorder rids ids o)) aliases ->
+      f (mkPyDimension t (JDict dd) (JDict tr)) = Ok aliases
+  | _, _, _ => True end.
+Proof. exact gen_dimtype_Dimension_element_aliases_all. Qed.
+Print Assumptions C05_gen_dimtype_Dimension_element_aliases_all.
+
+Theorem C05_dimvalues_label_transform_wins xf e n :
+jget xf "name" = Some (JStr n) -> n <> "" -> element_label xf e = Some (JStr n).
+Proof. exact (label_transform_wins xf e n). Qed.
+Print Assumptions C05_dimvalues_label_transform_wins.
+
+Theorem C05_dimvalues_label_empty_transform_suppresses xf e :
+jget xf "name" = Some (JStr "") \/ jget xf "name" = Some JNone -> element_label xf e = Some (JStr "").
+Proof. exact (label_empty_transform_suppresses xf e). Qed.
+Print Assumptions C05_dimvalues_label_empty_transform_suppresses.
+
+Theorem C05_dimvalues_label_own_name xf e n :
+jget xf "name" = None -> jget e "name" = Some (JStr n) -> element_label xf e = Some (JStr n).
+Proof. exact (label_own_name xf e n). Qed.
+Print Assumptions C05_dimvalues_label_own_name.
+
+Theorem C05_dimvalues_label_of_subvariable xf e val refs n :
+jget xf "name" = None -> jget e "name" = None -> jget e "value" = Some (JDict val) ->
+  jget val "references" = Some (JDict refs) -> jget refs "name" = Some (JStr n) ->
+  element_label xf e = Some (JStr n).
+Proof. exact (label_of_subvariable xf e val refs n). Qed.
+Print Assumptions C05_dimvalues_label_of_subvariable.
+
+Theorem C05_dimvalues_alias_is_never_transformed e1 e2 :
+e1 = e2 -> element_alias e1 = element_alias e2.
+Proof. exact (alias_is_never_transformed e1 e2). Qed.
+Print Assumptions C05_dimvalues_alias_is_never_transformed.
+
+Theorem C05_dimvalues_dimension_name_cascade refs tr :
+dimension_name refs tr
+  = match jget tr "name" with
+    | Some v => jor_empty v
+    | None => match jget refs "name" with
+              | Some v => jor_empty v
+              | None => match jget refs "alias" with Some v => jor_empty v | None => JStr "" end
+              end
+    end.
+Proof. exact (dimension_name_cascade refs tr). Qed.
+Print Assumptions C05_dimvalues_dimension_name_cascade.
+
+Theorem C05_dimvalues_dimension_name_null_transform refs tr :
+jget tr "name" = Some JNone -> dimension_name refs tr = JStr "".
+Proof. exact (dimension_name_null_transform refs tr). Qed.
+Print Assumptions C05_dimvalues_dimension_name_null_transform.
+
+Theorem C05_dimvalues_hidden_transforms_hides defs hidden eid :
+jd_get (hidden_transforms defs hidden) (jv_of_ident eid) = Some (JDict hide_true) <->
+  exists nm, In nm hidden /\ find_last nm defs = Some eid.
+Proof. exact (hidden_transforms_hides defs hidden eid). Qed.
+Print Assumptions C05_dimvalues_hidden_transforms_hides.
+
+Theorem C05_dimvalues_datetime_formats_are_iso_prefixes r f :
+In (r, f) datetime_formats -> String.prefix f "%Y-%m-%dT%H:%M:%S.%f" = true.
+Proof. exact (datetime_formats_are_iso_prefixes r f). Qed.
+Print Assumptions C05_dimvalues_datetime_formats_are_iso_prefixes.
+
+End GenAgreeDimType_C05.
+(*END GenAgreeDimType_C05*)
